@@ -44,6 +44,8 @@ void carquet_verif_reset_dispatch(void);
 void carquet_verif_reset_crc32(void);
 }
 
+extern "C" void __sanitizer_print_stack_trace(void);
+
 namespace sim {
 
 Disk D;
@@ -227,6 +229,7 @@ static bool should_fail(size_t size) {
         if (alloc.fired_in_api < 0) { alloc.fired_in_api = (int64_t)g_api_seq; alloc.fired_api_name = g_cur_api; }
         SIM_COUNT("fault.alloc_fail");
         L.ev("alloc.fail", (int64_t)k);
+        if (L.keep) { fprintf(stderr, "SIM-FAULT: allocation request #%llu (%zu bytes) fails here:\n", (unsigned long long)k, size); __sanitizer_print_stack_trace(); }
         return true;
     }
     if (size > CAP_SINGLE || alloc.live_bytes + size > CAP_LIVE) {
@@ -304,6 +307,20 @@ static size_t g_cov_mask = (1 << 20) - 1;
 void cov_attach(uint8_t* m, size_t size) { g_cov = m; g_cov_mask = size - 1; }
 size_t cov_count() { size_t n = 0; for (size_t i = 0; i <= g_cov_mask; i++) n += g_cov[i] != 0; return n; }
 
+// current fault point of an enumeration driver; printed when the process dies so that the parent can attribute the crash
+static int64_t g_focus_a = -1, g_focus_b = -1;
+static void print_focus() {
+    char msg[96];
+    int n = snprintf(msg, sizeof msg, "SIM-FOCUS %lld %lld\n", (long long)g_focus_a, (long long)g_focus_b);
+    if (write(2, msg, (size_t)n) < 0) {}
+}
+extern "C" void __sanitizer_set_death_callback(void (*)(void));
+void set_focus(int64_t a, int64_t b) {
+    static bool installed = false;
+    if (!installed) { __sanitizer_set_death_callback(print_focus); installed = true; }
+    g_focus_a = a; g_focus_b = b;
+}
+
 void set_next_preempt_tick(uint64_t t) { g_next_preempt_tick = t; recompute_next_event(); }
 
 static void tick_slow() {
@@ -315,6 +332,7 @@ static void tick_slow() {
             int n = snprintf(msg, sizeof msg, "SIM-HANG api=%s ticks=%llu budget=%llu\n", g_cur_api,
                              (unsigned long long)(g_ticks - g_api_t0), (unsigned long long)(lim - g_api_t0));
             if (write(2, msg, (size_t)n) < 0) {}
+            print_focus();
             _exit(EXIT_HANG);
         }
         g_tick_limit = lim; recompute_next_event();
@@ -340,6 +358,23 @@ void world_reset() {
     g_next_preempt_tick = ~0ull; recompute_next_event();
     g_zstd_dctx_calls = 0;
     g_cur_api = "";
+    g_focus_a = g_focus_b = -1;
+}
+
+// between the fault points of an enumeration: fresh plans and counters, same disk
+void reset_fault_plans() {
+    int open_streams = io.open_streams, open_fds = io.open_fds, live_maps = io.live_maps;
+    int vm = sinkplan.vbuf_mode; size_t vs = sinkplan.vbuf_size; int rvm = srcplan.vbuf_mode; size_t rvs = srcplan.vbuf_size;
+    sinkplan = SinkPlan(); srcplan = SrcPlan(); io = IoStats();
+    sinkplan.vbuf_mode = vm; sinkplan.vbuf_size = vs; srcplan.vbuf_mode = rvm; srcplan.vbuf_size = rvs;
+    io.open_streams = open_streams; io.open_fds = open_fds; io.live_maps = live_maps;
+    uint8_t dirt = allocplan.dirt; bool rm = allocplan.realloc_moves;
+    allocplan = AllocPlan(); allocplan.dirt = dirt; allocplan.realloc_moves = rm;
+    uint64_t live = alloc.live_bytes;
+    alloc = AllocStats(); alloc.live_bytes = live;
+    g_alloc_rng_seeded = false;
+    g_zstd_dctx_calls = 0;
+    g_api_seq = 0;
 }
 
 void world_check_closed() {
